@@ -64,6 +64,26 @@ def register(reg):
     )
     reg.contract("werkzeug/datastructures/structures.py:HeaderSet.update", prop=P, inline=True,
                  ghost_after={"self._set.add(key)": ["self._pos[key] = len(self._headers) - 1"]})
+    # update() with an arbitrary list of names (add() above covers the one-element case through the same body): the
+    # invariant survives names repeated -- in any letter case -- inside one call, the old entries stay where they are, and
+    # the owner is told exactly when something was inserted
+    reg.contract(
+        "werkzeug/datastructures/structures.py:HeaderSet.update#list", prop=P, self_model=HS,
+        params={"iterable": "List[str]"}, requires=["I_hs(self)"],
+        ghost_after={"self._set.add(key)": ["self._pos[key] = len(self._headers) - 1"]},
+        ensures=["I_hs_a(self)", "I_hs_b(self)",
+                 "forall(0, len(iterable), lambda j: member(self, iterable[j]))",
+                 "len(old(self._headers)) <= len(self._headers) and len(self._headers) <= len(old(self._headers)) + len(iterable)",
+                 "forall(0, len(old(self._headers)), lambda i: self._headers[i] == old(self._headers)[i])",
+                 "implies(len(self._headers) == len(old(self._headers)), ncalls() == 0)",
+                 "implies(len(self._headers) > len(old(self._headers)), notified_once(self))"],
+        raises={},
+        loops={0: {"inv": ["I_hs_a(self)", "I_hs_b(self)", "forall(0, _i, lambda j: member(self, iterable[j]))",
+                           "len(old(self._headers)) <= len(self._headers) and len(self._headers) <= len(old(self._headers)) + _i",
+                           "forall(0, len(old(self._headers)), lambda i: self._headers[i] == old(self._headers)[i])",
+                           "inserted_any == (len(self._headers) > len(old(self._headers)))", "ncalls() == 0"],
+                   "modifies": ["self._headers", "self._set", "self._pos", "inserted_any"]}},
+    )
     reg.contract(
         "werkzeug/datastructures/structures.py:HeaderSet.remove", prop=P, self_model=HS,
         params={"header": "str"}, requires=["I_hs(self)"],
